@@ -2,8 +2,8 @@
 
 TRUSTED_COMMON = [
     'Verus 0.2026.09.13 with its bundled Z3 4.16.0 and vstd (specifications of Vec, slices, iterators, HashMap, Option)',
-    'tools/vx extraction: the rewrite rules T1..T19 of DESIGN.md section 2.2 / 8.2 are meaning-preserving (monomorphization at VecKind as rustc does it; trait impls as inherent impls; operator sugar through dispatch traits; panics as obligations)',
-    'std semantics assumed by rewrites: enumerate() counts from 0 (T8); map().collect() visits elements once in order (T9); into_iter().collect() likewise (T13); calling a boxed closure held in a struct field is a call of the opaque stand-in declared for that field, about which nothing is assumed beyond an uninterpreted postcondition (T14); `for x in &mut v` and `v.iter_mut().for_each(|x| ..)` visit every position once, in order, through `&mut v[i]` (T15); zip of two into_iter()s calls next() on the first then the second and stops at the first None (T17); a full-range drain(..) yields every element and leaves the vector empty (T18); filter_map().collect() pushes the Some results in order, Option::map(F) applies F under Some (T19); Vec::extend(iter.map(f)) pushes in order (T9); std::mem::take returns the old value (assume_specification, nothing assumed about the value left behind); `a += &x` is `a += x` (T12); #[derive(Clone)] clones field-wise',
+    'tools/vx extraction: the rewrite rules T1..T20 of DESIGN.md section 2.2 / 8.2 are meaning-preserving (monomorphization at VecKind as rustc does it; trait impls as inherent impls; operator sugar through dispatch traits; panics as obligations)',
+    'std semantics assumed by rewrites: enumerate() counts from 0 (T8); map().collect() visits elements once in order (T9); into_iter().collect() likewise (T13); calling a boxed closure held in a struct field is a call of the opaque stand-in declared for that field, about which nothing is assumed beyond an uninterpreted postcondition (T14); `for x in &mut v` and `v.iter_mut().for_each(|x| ..)` visit every position once, in order, through `&mut v[i]` (T15); zip of two into_iter()s calls next() on the first then the second and stops at the first None (T17); a full-range drain(..) yields every element and leaves the vector empty (T18); filter_map().collect() pushes the Some results in order, Option::map(F) applies F under Some (T19); Vec::extend(iter.map(f)) pushes in order (T9); a.chain(b).collect() is all of a then all of b, v[k..].to_vec() clones the tail in order (T20); std::mem::take returns the old value (assume_specification, nothing assumed about the value left behind); `a += &x` is `a += x` (T12); #[derive(Clone)] clones field-wise',
     'machine arithmetic: sizes and sums fit usize where a contract says so (explicit preconditions); allocation failure is out of scope',
 ]
 
@@ -22,7 +22,7 @@ def _p(level, explanation='', assumptions=None, rule='', dev_profile=False, kani
 
 PROPS = {
     'C01': _p('proof', explanation='compose proved to be the pushout (universal property)'),
-    'C02': _p('proof', explanation='strict tensor proved to be juxtaposition; associativity and unit on the nose as lemmas over that contract'),
+    'C02': _p('proof', explanation='strict tensor proved to be juxtaposition; associativity and unit on the nose as lemmas over that contract; lax coproduct / tensor proved to be juxtaposition with the second operand shifted (is_lax_tensor)'),
     'C03': _p('proof', explanation='every law (associativity, units, interchange, naturality / self-inverse / hexagons of the symmetry) proved up to an exhibited isomorphism as a lemma over the contracts of compose, tensor, identity, twist (modules laws, laws2)', extra_modules=['laws', 'laws2']),
     'C04': _p('proof', explanation='dagger/spider definitions proved; dagger involutive and distributing over tensor on the nose as lemmas over the contracts'),
     'C05': _p('proof', explanation='wf + type postconditions of the strict cone'),
@@ -30,16 +30,16 @@ PROPS = {
     'C07': _p('proof', explanation='every array primitive of the Vec backend under a Verus contract stating its scalar definition; bodies extracted from /repo each run', kani_quick=True),
     'C08': _p('proof', explanation='every segmented-array operation under a Verus contract in list-of-lists (segment/offset) form plus the size invariant; iterator next/len/size_hint; checked constructors accept iff'),
     'C09': _p('proof', explanation='lax Hypergraph::quotient, OpenHypergraph::quotient and coequalizer extracted (rules T9, T15) and proved: the returned map is a coequalizer of the recorded unification pairs, every node reference is replaced by its image, hyperedges / labels / order untouched, labels per fibre, pending unifications cleared, a second quotient only renumbers; Err iff a fibre carries two labels, and then the diagram is unchanged'),
-    'C10': _p('exploration', explanation='conversions proved: from_strict (both levels) yields exactly the strict data, to_strict is quotient-then-read-off (is_strictification), both round trips return the diagram renumbered by a node bijection (lemmas); lax identity / spider / source / target proved; commutation with the operations and the in-place variants bounded'),
+    'C10': _p('exploration', explanation='proved: from_strict / to_strict and both round trips (up to the node renumbering computed inside to_strict); lax coproduct, tensor, lax_compose (defined iff arities match) and checked compose (defined iff types match) against juxtaposition-with-shift contracts; for operands without pending unifications the strictified lax composite IS a pushout of the strictified operands and the strictified lax tensor is the strict tensor renumbered (lemmas); lax identity / spider / source / target. Bounded: operands with pending unifications, dagger / symmetry / singleton commutation, the in-place variants'),
     'C11': _p('proof', explanation='every builder call of lax::Hypergraph / OpenHypergraph (new_node, new_edge, new_operation, unify, add_edge_source / target, delete_edges, delete_nodes(_witness), with_nodes / with_edges, map_nodes / map_edges, empty, discrete, singleton) extracted and proved against the list model -- the struct is the list model, each contract states the new lists exactly and frames the rest; deletion: exactly the named items, survivors in order, references dropped / renumbered, pending pairs kept iff both ends survive, renumbering reported; out-of-range rejection (panic) and serde bounded'),
     'C12': _p('proof', explanation='define_map_arrow / spider_map_arrow proved, for every functor meeting the trait contract, to return the substitution instance (nodes replaced by their blocks, hyperedges by the image of the operations, glued along the expanded source and target lists by a coequalizer, interfaces expanded), well-formed and of type F(A) -> F(B); the instance is unique up to isomorphism; the Identity functor is proved to meet the contract and its image to be isomorphic to the argument; functoriality clauses and the lax DynFunctor wrapper are bounded', extra_modules=['subst', 'laws', 'laws2']),
-    'C13': _p('exploration'),
+    'C13': _p('exploration', explanation='proved on the real code: try_define_map_arrow and map_arrow_witness refuse (None) whenever pending unifications remain; the witness is the segmented array with segment sizes |F(label i)| and values n, n+1, .. (n = total size), well-formed, over the node set of the result; the lax map_half_spider is the block-wise injection (defined iff the ids are in range). The image itself (map_operations / map_objects / lax spider_map_arrow: impl-Trait returns, flat_map) carries no assumed contract and is compared with the strict path by the bounded module'),
     'C14': _p('exploration', explanation='typing clauses proved (Optic::map_object, map_operations, map_arrow, adapt: well-formed, panic-free, of the stated types for every lens-typed forward/reverse functor and residual); functoriality, monogamy and the derivative clause bounded'),
     'C15': _p('proof', explanation='kahn proved against its layering contract (loop invariant over a counting model); converse / flatmap / operation_adjacency proved to compute the dependency relation; layer() proved to satisfy the local form of the property, from which the path form follows by verified lemmas; grouping (layered_operations) bounded'),
     'C16': _p('proof', explanation='eval, eval_order and layer_function_to_layers proved: None iff a dependency cycle exists; otherwise the memory solves the circuit equations (inputs stored, every hyperedge interpreted once on its source values) for every interpretation the user closure computes; the solution is unique (lemma_solution_unique)'),
     'C17': _p('proof', explanation='is_monogamous and degrees proved; is_acyclic proved: true iff no node reaches itself (kahn + node adjacency under contract, cycle lemmas)', dev_profile=True),
     'C18': _p('proof', explanation='validate iff + error variants, is_monomorphism and is_convex_subgraph (two-layer search: loop invariant, soundness and completeness against step-indexed reachability, termination) proved'),
-    'C19': _p('exploration'),
+    'C19': _p('exploration', explanation='proved on the real code: Forget::map_operation and ForgetMonogamous::map_operation (what forgetting does to one operation: one merged node / nothing / the operation itself on fresh nodes), with all_elements_equal assumed against its definition (bounded-checked through the hook); the Var builder (Rc<RefCell>, operator overloading) and the whole-term clauses are bounded'),
     'C20': _p('proof', explanation='every strict algorithm of the property is verified against the documented, deliberately loose array contracts (./check C20 strips every Vec-specific clause first), and its contract determines the result: predicates and evaluation refusal are iff-specified, layering and the evaluation solution are unique, composites / functor images / optic images are unique up to isomorphism (uniqueness and congruence lemmas); layered_operations grouping and everything in lax/ compared on an adversarial second backend (bounded)', extra_modules=['laws', 'laws2', 'subst']),
 }
 
